@@ -575,7 +575,7 @@ def _gen_sequence(rng, nops, tier_big=False):
 
     def gen_kw(g):
         if g == 'cd':
-            return rng.choice([None, None, 2.0 ** -10, 2.0 ** -6, 2.0 ** -8, 1e-3, 2.0 ** -12])
+            return rng.choice([None, None, 2.0 ** -10, 2.0 ** -6, 2.0 ** -8, 1e-3, 2.0 ** -12, -2.0 ** -9])
         return rng.choice([None, 1.0, 0.5, -1.0, 2.0, 0.75])
     integ = rng.choice(['euler', 'rk', 'rk'])
     ints = rng.random() < 0.15
@@ -1056,6 +1056,43 @@ def _climb_degenerate(runner, before, op, climb):
         return False
 
 
+def _respacing_oracle(before, op, climb, new, cond):
+    """the whole step, interior images included: integrate every image exactly, then place the images at equal arc
+    coordinate within each segment between pinned images on the cubic spline through the integrated images (scipy's
+    CubicSpline evaluated here, independently of atomman). None if `new` is that path."""
+    np = _np()
+    from scipy.interpolate import CubicSpline
+    if climb and not cond < 1e3:
+        return 'skip'
+    _, tau = _geometry(before.coord)
+    rows, tols = [], []
+    for i, x in enumerate(before.coord):
+        r, t = before.integrate_exact(x, op['h'], tau=[Fraction(v) for v in tau[i]] if i in climb else None)
+        rows.append([_fl(v) for v in r])
+        tols.append(t)
+    ic = np.array(rows)
+    if not np.isfinite(ic).all() or not all(t < 1e-6 for t in tols):
+        return 'skip'
+    seg = np.linalg.norm(ic[1:] - ic[:-1], axis=1)
+    if seg.min() <= 1e-6 * max(1.0, seg.max()):
+        return 'skip'
+    alpha = np.concatenate([[0.0], np.cumsum(seg)])
+    newa = np.empty_like(alpha)
+    cuts = [0] + sorted(climb) + [before.n - 1]
+    for a, b in zip(cuts, cuts[1:]):
+        newa[a:b + 1] = np.linspace(alpha[a], alpha[b], b - a + 1)
+    want = CubicSpline(alpha, ic)(newa)
+    # conditioning: the spline amplifies errors of the knots by about (longest / shortest segment)^2
+    amp = (seg.max() / seg.min()) ** 2
+    tol = (max(tols) + 1e3 * EPS * max(1.0, float(np.abs(ic).max()))) * 10 * amp + (64 * EPS * cond * 10 * amp if climb else 0.0)
+    bad = np.argwhere(~(np.abs(new - want) <= tol))
+    if len(bad) == 0:
+        return None
+    i, j = (int(v) for v in bad[0])
+    return (f'image {i} is {new[i].tolist()}; equal spacing in arc coordinate between the pinned images {cuts} on the spline '
+            f'through the integrated images puts it at {want[i].tolist()}')
+
+
 def _check_step(ctx, report, model, model_kind, runner, idx, before, op, res, raised):
     np = _np()
     kind = op['op']
@@ -1136,6 +1173,14 @@ def _check_step(ctx, report, model, model_kind, runner, idx, before, op, res, ra
                        f'{_brief(op)} from coord {before.coord} ({before.integ}, gradient {before.g}, settings {before.kw}): image {i} is '
                        f'{new[i].tolist()}, the integrator step of that image is {[_fl(v) for v in row]}')
                 return
+        if model_kind == 'oracle' and before.n >= 3:
+            why = _respacing_oracle(before, op, climb, new, cond)
+            ctx.stats.case('oracle:path-respacing' + ('-skipped' if why == 'skip' else ''), (repr(before.spec()), repr(op)),
+                           nontrivial=why != 'skip')
+            if why not in (None, 'skip'):
+                report('path:step:respacing', f'{_brief(op)} from coord {before.coord} ({before.integ}, gradient {before.g}, settings '
+                       f'{before.kw}): {why}')
+                return
     elif want is None:
         ctx.stats.case(f'{model_kind}:path-relax-unchecked-rows', repr(op), nontrivial=False)
     else:
@@ -1172,7 +1217,7 @@ def _gen_cd_array(rng, tier_big=False):
     container = rng.choice(['array', 'array', 'list', 'intlist', 'intarray'])
     bits = 0 if container.startswith('int') else 3
     pts = [[cm.dyadic(rng, -span, span, bits) for _ in range(d)] for _ in range(npts)]
-    shift = rng.choice([None, 2.0 ** -3, 2.0 ** -6, 2.0 ** -10, 1e-3, 2.0 ** -2, 0.01])
+    shift = rng.choice([None, 2.0 ** -3, 2.0 ** -6, 2.0 ** -10, 1e-3, 2.0 ** -2, 0.01, -2.0 ** -5, -1e-3])
     return {'op': 'cd-array', 'poly': poly.spec(), 'lead': list(lead), 'pts': pts, 'shift': shift, 'container': container}
 
 
@@ -1282,7 +1327,7 @@ def correspond(ctx):
         c = [cm.dyadic(rng, -2, 2, 2) for _ in range(dim)]
         m = cm.dyadic(rng, -2, 2, 1)
         x = [cm.dyadic(rng, -2, 2, 3) for _ in range(dim)]
-        s = rng.choice([0.5, 0.25, 0.125, 2.0 ** -10])
+        s = rng.choice([0.5, 0.25, 0.125, 2.0 ** -10, -0.25, -2.0 ** -7])
         an, bn, cn = np.array(a), np.array(b), np.array(c)
 
         def fxn(v, an=an, bn=bn, cn=cn, m=m):
